@@ -115,6 +115,8 @@ def run_case(case):
                 sc.commit_all("pre")
                 if op == "rebase" and rng.random() < 0.15:
                     out = sc.op_rebase_delete_recreate()
+                elif op == "cherry" and rng.random() < 0.2:
+                    out = sc.op_cherry_pick_concluded_by_commit()
                 else:
                     out = {"rebase": sc.op_rebase, "cherry": sc.op_cherry_pick, "squash": sc.op_squash_merge, "merge": sc.op_merge, "ci": sc.op_ci_rewrite}[op]()
             elif op == "noop":
